@@ -211,7 +211,7 @@ Lemma e_input_sec cfg g i em :
   c_sec_enabled cfg = true -> g_sec g em ->
   g_sec (fst (e_input cfg g i)) (em || emits (snd (e_input cfg g i))).
 Proof.
-  intros Hs [Hi He]. destruct i as [d t|m|t|]; cbn [e_input].
+  intros Hs [Hi He]. destruct i as [d t|m|t| |w]; cbn [e_input].
   - unfold e_net.
     pose proof (sk_pump_Run (engine_ok cfg) (g_st g) (g_acc g ++ d)) as HR.
     destruct (pump (estep cfg) emu EMU_MAX (g_st g) (g_acc g ++ d)) as [[st' r] o]. cbn [fst snd g_st].
@@ -231,6 +231,7 @@ Proof.
      destruct (_ && _); cbn [fst snd]; rewrite orb_false_r; split; auto).
   - cbn [fst snd e_close]. rewrite orb_false_r. split; [apply sec_inv_closed|].
     intros H. destruct (He H) as [Hsd Hp]. split; [exact Hsd|right; right; reflexivity].
+  - cbn [fst snd e_wrote g_st]. rewrite orb_false_r. split; auto.
 Qed.
 
 Definition any_emits (os : list (list eout)) : bool := existsb emits os.
